@@ -19,7 +19,7 @@ pub fn meta() -> Meta {
         rule: "seeded programs from the grammar generator WITHOUT layout restrictions (labels referenced in any letter case, DEC with every operand shape, .ORG to any address relative to the current one, images from 0 to beyond 256 bytes built from .BYTE/.DB/.DW/.ORG mixes, 0-40 labels, header-only files); every program the real parser accepts is compiled and loaded (Machine::load and Machine::new_with_program) under catch_unwind; a sample is written to disk and pushed through the real binary: `2a-emulator verify` exit 0 must imply that `2a-emulator run <file> 0` does not die from a panic. Loading is also exercised with a history: every well-formed program is loaded into a machine that has already held the previous well-formed programs of its batch (large images, every stack-size and program-size directive before it), and samples are loaded one after the other through the `load` command of the real interactive session (headless driver, real Tui::load_program incl. the program pane), where a PANIC line is the violation. distinct_nontrivial counts distinct (layout class, image-size bucket, uses mixed-case refs, uses DEC memory forms) classes of accepted programs",
         exhaustive: false,
         assumptions: vec!["panics are classified by the layout class of the program (well-formed / backward .ORG / image larger than the RAM, decided by the harness's own layout rules) and the panic site, so a known finding never hides a crash on a well-formed program"],
-        floors: vec![("accepted_programs", 20_000), ("compiled_and_loaded", 10_000), ("programs_with_backward_org", 500), ("programs_larger_than_ram", 500), ("programs_with_mixed_case_refs", 1_000), ("programs_with_dec_memory", 1_000), ("cli_pairs", 40), ("texts_with_undefined_label", 5_000), ("texts_with_duplicate_definitions", 5_000), ("reloads_into_used_machine", 5_000), ("reloads_after_image_above_224", 100), ("tui_loads", 100), ("tui_loads_with_org_above_127", 10)],
+        floors: vec![("accepted_programs", 20_000), ("compiled_and_loaded", 10_000), ("programs_with_backward_org", 500), ("programs_larger_than_ram", 500), ("programs_with_mixed_case_refs", 1_000), ("programs_with_dec_memory", 1_000), ("cli_pairs", 40), ("texts_with_undefined_label", 5_000), ("texts_with_duplicate_definitions", 5_000), ("reloads_into_used_machine", 5_000), ("texts_with_hundreds_of_instruction_lines", 1_000), ("accepted_with_more_than_255_instruction_lines", 500), ("reloads_after_image_above_224", 100), ("tui_loads", 100), ("tui_loads_with_org_above_127", 10)],
     }
 }
 
@@ -259,6 +259,23 @@ pub fn run(ctx: &Ctx) -> Report {
                 // whenever the generated part is shorter)
                 8 => g.text.push_str(&format!("\n .ORG {}\n .DB 7\n", 128 + rng.below(100))),
                 9 => g.text.push_str(&format!("\n .ORG {}\n NOP\n", 225 + rng.below(14))),
+                12 if k % 5 == 2 => {
+                    // far more than 255 instruction lines in an image that still fits: most of the
+                    // lines are directives without bytes
+                    let mut t = String::from("#! mrasm\n");
+                    let lines = 250 + rng.usize(400);
+                    let mut bytes = 0usize;
+                    for _ in 0..lines {
+                        if bytes < 200 && rng.chance(1, 3) {
+                            t.push_str(*rng.pick(&[" NOP\n", " INC R0\n", " EI\n", " RET\n"]));
+                            bytes += 1;
+                        } else {
+                            t.push_str(*rng.pick(&["*STACKSIZE 16\n", "*STACKSIZE 48\n", "*PROGRAMSIZE AUTO\n", " .BYTE 0\n", "*STACKSIZE 0\n", "*PROGRAMSIZE 200\n"]));
+                        }
+                    }
+                    g.text = t;
+                    rep.inc("texts_with_hundreds_of_instruction_lines");
+                }
                 10 => g.text.push_str(&format!("\n*STACKSIZE {}\n", ["0", "16", "32", "48", "64", "NOSET"][rng.usize(6)])),
                 11 => g.text.push_str(&format!("\n*PROGRAMSIZE {}\n", if rng.chance(1, 2) { 241 + rng.below(15) } else { rng.below(256) })),
                 6 | 7 => {
@@ -305,6 +322,9 @@ pub fn run(ctx: &Ctx) -> Report {
                 }
             };
             rep.inc("accepted_programs");
+            if asm.lines.iter().filter(|l| matches!(l, Line::Instruction(..))).count() > 255 {
+                rep.inc("accepted_with_more_than_255_instruction_lines");
+            }
             let lower_upper = g.text.chars().any(|c| c.is_ascii_lowercase()) && g.text.chars().any(|c| c.is_ascii_uppercase());
             if lower_upper {
                 rep.inc("programs_with_mixed_case_refs");
